@@ -351,3 +351,104 @@ pub fn bnd_c09() {
     }}}}
     rep.finish();
 }
+
+// ------------------------------------------------------------------------------------------------------------------------------
+// Tables (C02, C03, C05, C06): render_table_tree, RenderTable::new, tbody_to_render_tree, render_table_row, append_columns_with_borders
+// as wholes.  Regular tables (every row spans the same number of columns) from a seeded generator.
+struct Lcg(u64);
+impl Lcg {
+    fn next(&mut self) -> u64 { self.0 = self.0.wrapping_mul(6364136223846793005).wrapping_add(1442695040888963407); self.0 >> 33 }
+    fn below(&mut self, n: u64) -> u64 { self.next() % n }
+}
+fn seed() -> u64 { std::env::var("VERIF_SEED").ok().and_then(|s| s.parse().ok()).unwrap_or(0) }
+
+const CELLS: [&str; 8] = ["", "aa", "bb cc", "longerword", "\u{4e2d}\u{6587}", "x1<br>y2", "dd ee ff gg", "q"];
+fn gen_table(r: &mut Lcg, depth: u32, tok: &mut u32) -> String {
+    let rows = 1 + r.below(3) as usize;
+    let cols = 1 + r.below(3) as usize;
+    let mut s = String::from("<table>");
+    let mut col_has_single = vec![false; cols];
+    let mut col_needs = vec![false; cols];     // spanned by a multi-column cell
+    let mut body = vec![];
+    for _ in 0..rows {
+        let mut row = vec![];
+        let mut c = 0;
+        while c < cols {
+            let span = if c + 1 < cols && r.below(5) == 0 { 2 } else { 1 };
+            let content = if depth == 0 && r.below(8) == 0 { gen_table(r, 1, tok) } else {
+                let k = r.below(CELLS.len() as u64) as usize;
+                if CELLS[k].is_empty() { String::new() } else { *tok += 1; format!("{}{}", CELLS[k], tok) }
+            };
+            if span == 1 && !content.is_empty() { col_has_single[c] = true; }
+            if span > 1 { for k in c..c + span { col_needs[k] = true; } }
+            row.push((span, content));
+            c += span;
+        }
+        body.push(row);
+    }
+    // a column under a multi-column cell gets at least one single-span cell with content (keeps clear of the recorded findings D8
+    // and D15); other columns may be empty in every row
+    for c in 0..cols { if col_needs[c] && !col_has_single[c] { *tok += 1; body.push((0..cols).map(|k| (1, if k == c { format!("f{}", tok) } else { String::new() })).collect()); col_has_single[c] = true; } }
+    for row in body {
+        s.push_str("<tr>");
+        for (span, content) in row { if span > 1 { s.push_str(&format!("<td colspan={}>{}</td>", span, content)); } else { s.push_str(&format!("<td>{}</td>", content)); } }
+        s.push_str("</tr>");
+    }
+    s.push_str("</table>");
+    s
+}
+fn content_chars(html: &str) -> Vec<char> {
+    // text outside tags, without white space
+    let mut out = vec![]; let mut intag = false;
+    for ch in html.chars() { if ch == '<' { intag = true; } else if ch == '>' { intag = false; } else if !intag && !ch.is_whitespace() { out.push(ch); } }
+    out.sort(); out
+}
+fn is_rule(c: char) -> bool { c == '\u{2500}' || c == '\u{252c}' || c == '\u{2534}' || c == '\u{253c}' }
+fn columns(l: &str) -> Vec<char> {
+    use unicode_width::UnicodeWidthChar;
+    let mut v = vec![];
+    for ch in l.chars() { let w = UnicodeWidthChar::width(ch).unwrap_or(0); for k in 0..w { v.push(if k == 0 { ch } else { '\u{0}' }); } }
+    v
+}
+
+pub fn bnd_tables() {
+    let (ntab, maxw) = if thorough() { (2500u32, 50usize) } else { (500u32, 30usize) };
+    let mut rep = Report::new("bnd_tables", &format!("{} seeded regular tables (1..3 rows plus filler rows, 1..3 columns, colspan 2 tiling the grid, cells empty/short/two words/long/wide characters/two lines/many words, \
+        one level of nested tables, columns may be empty in every row unless a multi-column cell spans them), widths 1..={}; plain decorator with borders: \
+        no panic; lines within the width (C02); the non-space characters of all cells are exactly the non-border characters of the output (C03, C06); \
+        side-by-side layout: equal line widths, first and last line are rules, every rule character matches the bars directly above and below it (C05)", ntab, maxw));
+    let mut r = Lcg(0x9e3779b97f4a7c15 ^ seed());
+    for _ in 0..ntab {
+        let mut tok = 0;
+        let html = gen_table(&mut r, 0, &mut tok);
+        let want = content_chars(&html);
+        for w in 1..=maxw {
+            let input = format!("width={} html={}", w, html);
+            rep.case(&input);
+            let h = html.clone();
+            let out = match panic::catch_unwind(move || config::plain().string_from_read(h.as_bytes(), w)) { Ok(Ok(s)) => s, Ok(Err(_)) => continue, Err(_) => { rep.found(&input, "panic"); continue; } };
+            let lines: Vec<&str> = out.lines().collect();
+            let cols: Vec<Vec<char>> = lines.iter().map(|l| columns(l)).collect();
+            if let Some(l) = cols.iter().position(|c| c.len() > w) { rep.found(&input, &format!("line {:?} is {} columns wide", lines[l], cols[l].len())); continue; }
+            let mut got: Vec<char> = out.chars().filter(|c| !c.is_whitespace() && !is_rule(*c) && *c != '\u{2502}' && *c != '/').collect();
+            got.sort();
+            if got != want { rep.found(&input, &format!("cell characters {:?} but output characters {:?}; output {:?}", want.iter().collect::<String>(), got.iter().collect::<String>(), out)); continue; }
+            if out.contains('/') || lines.is_empty() { continue; }     // stacked layout
+            // string output trims trailing spaces: no line may be wider than the first rule; shorter lines are padded for the column checks
+            let tw = cols[0].len();
+            if cols.iter().any(|c| c.len() > tw) || cols.iter().any(|c| c.iter().all(|x| is_rule(*x)) && c.len() != tw) { rep.found(&input, &format!("lines of a side-by-side table differ in width; output {:?}", out)); continue; }
+            let cols: Vec<Vec<char>> = cols.into_iter().map(|mut c| { while c.len() < tw { c.push(' '); } c }).collect();
+            if !cols[0].iter().all(|c| is_rule(*c)) || !cols[cols.len() - 1].iter().all(|c| is_rule(*c)) { rep.found(&input, &format!("first or last line is not a rule; output {:?}", out)); continue; }
+            'outer: for (li, line) in cols.iter().enumerate() {
+                for (i, &ch) in line.iter().enumerate() {
+                    if !is_rule(ch) { continue; }
+                    let above = li > 0 && cols[li - 1].get(i) == Some(&'\u{2502}');
+                    let below = li + 1 < cols.len() && cols[li + 1].get(i) == Some(&'\u{2502}');
+                    let want_ch = match (above, below) { (true, true) => '\u{253c}', (true, false) => '\u{2534}', (false, true) => '\u{252c}', (false, false) => '\u{2500}' };
+                    if ch != want_ch { rep.found(&input, &format!("line {} column {}: {:?} but bar above={} below={}; output {:?}", li, i, ch, above, below, out)); break 'outer; }
+                }
+            }
+        }
+    }
+    rep.finish();
+}
